@@ -10,7 +10,18 @@
 //! request's, same order); the first taking layer / usage in registration order decides the code, else 404 / 481
 //! from the stack; a rejected INVITE's final response is on the wire at the answer instant and on the timer-G
 //! schedule until the ACK, and not again when a further copy of the ACK arrives (an ACK is never answered).
-//! `pending_invite`, `session_backlog` drive the acceptor world of C12 (`c12::run`); see the comments there.
+//! Each request may also be retransmitted by the peer (byte-identical copies 500 / 1500 / 3500 ms or 2 / 900 ms after
+//! the original, unreliable transport only) and the transport may refuse one of the first eight sends of the case
+//! (io::Error from `Transport::send`, nothing on the wire; the refused bytes are kept). Oracle for these: a request
+//! whose FIRST answer transmission was refused is excused; otherwise, while the server transaction of an answered
+//! request lives (non-INVITE: 64*T1 from the answer; rejected INVITE: until the ACK), a copy of the request is
+//! absorbed: the layers / usages are not handed the request a second time - also not after a re-send of the answer
+//! was refused (non-INVITE; for a rejected INVITE ezk ends the transaction on a refused re-send: not asserted).
+//! `reordered_in_dialog` (enumerated): in-dialog requests nobody wants arriving out of CSeq order: every permutation
+//! of 2..4, and 8..200 requests waiting at once behind a gap (four arrival orders, both reliabilities): one 404 each.
+//! `pending_invite`, `session_backlog` drive the acceptor world of C12 (`c12::run`); see the comments there
+//! (`pending_invite` also with an RFC 2543 peer = Via branches without the magic cookie, and with session-timer
+//! headers on the INVITE).
 //! Not asserted: instants where an ACK / copy coincides with a timer; copies of an INVITE that arrive after the
 //! ACK of its rejection (ezk keeps no Confirmed state: such a copy is a new request, answered again).
 
@@ -76,6 +87,10 @@ pub struct Req {
     /// retransmitted / duplicated ACK; an ACK is never answered and ends the retransmission of the rejection)
     #[serde(default)]
     pub ack_copies: Vec<u64>,
+    /// the peer retransmits this request (it has not seen an answer yet): further byte-identical copies this many
+    /// ms after the original (e.g. 500, 1500, 3500 = the timer-E / timer-A instants of its client transaction)
+    #[serde(default)]
+    pub copies: Vec<u64>,
 }
 
 #[derive(Serialize, Deserialize, Clone, Debug, Hash)]
@@ -92,6 +107,10 @@ pub struct Case {
     /// the peer copies the To of the response into the ACK it sends for a rejected INVITE
     #[serde(default)]
     pub uas_tags: bool,
+    /// ordinals (0-based, over every `Transport::send` call of the case) of sends the transport refuses with an
+    /// io::Error (a transient error such as a pending ICMP error on a UDP socket); nothing reaches the wire then
+    #[serde(default)]
+    pub fail_sends: Vec<u8>,
 }
 
 fn policy_strategy() -> BoxedStrategy<Policy> {
@@ -136,8 +155,17 @@ pub fn strategy() -> BoxedStrategy<Case> {
             1 => Just(vec![3u64, 1300]),
             1 => Just(vec![3000u64]),
         ],
+        // retransmissions of the request by the peer: none, one, the first two / three of its retransmission timer,
+        // a quick duplicate plus a late one
+        prop_oneof![
+            5 => Just(vec![]),
+            1 => Just(vec![500u64]),
+            2 => Just(vec![500u64, 1500]),
+            2 => Just(vec![500u64, 1500, 3500]),
+            1 => Just(vec![2u64, 900]),
+        ],
     )
-        .prop_map(|(gap, kind, method, ack_after, legacy_branch, (via_hops, via_csv), ack_copies)| Req { gap, kind, method, ack_after, cseq_offset: None, legacy_branch, via_hops, via_csv, ack_copies });
+        .prop_map(|(gap, kind, method, ack_after, legacy_branch, (via_hops, via_csv), ack_copies, copies)| Req { gap, kind, method, ack_after, cseq_offset: None, legacy_branch, via_hops, via_csv, ack_copies, copies });
     (
         prop_oneof![3 => Just(false), 1 => Just(true)],
         prop::collection::vec(spec_strategy(), 1..5),
@@ -147,16 +175,27 @@ pub fn strategy() -> BoxedStrategy<Case> {
         prop::collection::vec(req, 1..5),
         any::<u8>(),
         any::<bool>(),
+        // the transport refuses one of the first eight sends of the case
+        prop_oneof![2 => Just(vec![]), 1 => (0u8..8).prop_map(|k| vec![k])],
     )
-        .prop_map(|(reliable, layers, dialog_layer_pos, usages, invite_layer, requests, rng, uas_tags)| Case {
-            reliable,
-            dialog_layer_pos: dialog_layer_pos.map(|p| p % (layers.len() as u8 + 1)),
-            layers,
-            usages,
-            invite_layer,
-            requests,
-            rng,
-            uas_tags,
+        .prop_map(|(reliable, layers, dialog_layer_pos, usages, invite_layer, mut requests, rng, uas_tags, fail_sends)| {
+            if reliable {
+                // over a reliable transport the peer sends nothing twice
+                for r in requests.iter_mut() {
+                    r.copies.clear();
+                }
+            }
+            Case {
+                reliable,
+                dialog_layer_pos: dialog_layer_pos.map(|p| p % (layers.len() as u8 + 1)),
+                layers,
+                usages,
+                invite_layer,
+                requests,
+                rng,
+                uas_tags,
+                fail_sends,
+            }
         })
         .boxed()
 }
@@ -384,13 +423,25 @@ pub struct Observed {
     seen: Vec<Seen>,
     sent: Vec<Sent1>,
     have_dialog: bool,
+    /// messages the transport refused to take (send-fault plan), in call order
+    refused: Vec<(Sent, Option<WireMsg>)>,
 }
 
 pub fn run(case: &Case) -> Observed {
     let case = case.clone();
     run_world(case.rng as u64, |clock| async move {
         let log = WireLog::new(clock);
-        let (tp, _) = mock_datagram(&log, "UDP", false, case.reliable, "10.0.0.1:5060");
+        // (the datagram transport of the C12 world: like `mock_datagram`, plus a send-fault plan that keeps the
+        // refused bytes, so that the oracle knows whose response the transport would not take)
+        let plan: Arc<Mutex<super::c12::SendPlan>> = Default::default();
+        plan.lock().fail = case.fail_sends.iter().map(|n| *n as usize).collect();
+        let tp = sip_core::transport::TpHandle::new(super::c12::PlanDatagram {
+            reliable: case.reliable,
+            bound: "10.0.0.1:5060".parse().unwrap(),
+            log: log.clone(),
+            delay_ms: 0,
+            plan: plan.clone(),
+        });
         let rec = Recorder::new(clock);
         let shared: Arc<Mutex<Shared>> = Default::default();
         let dl_key: Arc<Mutex<Option<LayerKey<DialogLayer>>>> = Default::default();
@@ -549,7 +600,12 @@ pub fn run(case: &Case) -> Observed {
                     events.push((*c, events.len(), ack.clone(), Some(branch.clone())));
                 }
             }
-            sent.push(Sent1 { t_ms: t, marker, bytes, branch, cseq, method: method_s, kind, is_copy, ack_at, ack_copies_at, vias });
+            let copies_at: Vec<u64> = if is_copy || method_s == "RESPONSE" || method_s == "ACK" { vec![] } else { r.copies.iter().map(|d| t + d).collect() };
+            sent.push(Sent1 { t_ms: t, marker: marker.clone(), bytes: bytes.clone(), branch: branch.clone(), cseq, method: method_s.clone(), kind, is_copy, ack_at, ack_copies_at, vias: vias.clone() });
+            for c in copies_at {
+                events.push((c, events.len(), bytes.clone(), None));
+                sent.push(Sent1 { t_ms: c, marker: marker.clone(), bytes: bytes.clone(), branch: branch.clone(), cseq, method: method_s.clone(), kind, is_copy: true, ack_at: None, ack_copies_at: vec![], vias: vias.clone() });
+            }
         }
         events.sort_by_key(|e| (e.0, e.1));
         for (t, _, mut bytes, ack_for) in events {
@@ -570,7 +626,8 @@ pub fn run(case: &Case) -> Observed {
         clock.advance(4000).await;
         settle().await;
         let _ = Duration::from_secs(0);
-        let out = Observed { wire: log.parsed(), seen: rec.snapshot(), sent, have_dialog };
+        let refused = plan.lock().refused.iter().map(|s| (s.clone(), WireMsg::parse(&s.bytes))).collect();
+        let out = Observed { wire: log.parsed(), seen: rec.snapshot(), sent, have_dialog, refused };
         // keep dialog + guards alive until here
         drop(shared);
         out
@@ -593,7 +650,7 @@ pub fn check(case: &Case, out: &mut CaseOut) {
 
     let mut nontrivial = false;
     let mut overlapping = 0;
-    let end_t = obs.sent.last().map(|s| s.t_ms).unwrap_or(0) + 4000;
+    let end_t = obs.sent.iter().map(|s| s.t_ms).max().unwrap_or(0) + 4000;
 
     for (idx, s) in obs.sent.iter().enumerate() {
         if s.is_copy {
@@ -680,6 +737,56 @@ pub fn check(case: &Case, out: &mut CaseOut) {
                 distinct.sort();
                 distinct.dedup();
                 let who = if exp.by_stack { "stack" } else { "layer" };
+                // transmissions of THIS request's response the transport refused (send-fault plan)
+                let refused_mine: Vec<u64> = obs.refused.iter().filter(|(_, m)| m.as_ref().map_or(false, |m| belongs_to(m, s))).map(|(w, _)| w.t_ms).collect();
+                let first_out = finals.first().map_or(false, |f| f.0.t_ms == answer_due);
+                if !refused_mine.is_empty() {
+                    out.class("transport refused a send");
+                    if !first_out {
+                        // the answer itself was refused: the stack decided and tried, the responding call reported the
+                        // error; what a refused datagram means for this request is outside the statement
+                        out.class("own answer refused by the transport (excused)");
+                        if distinct.len() > 1 {
+                            out.fail("c08.answer/two-different-finals", format!("{} got {} different final responses", s.marker, distinct.len()));
+                        }
+                        continue;
+                    }
+                }
+                let disturbed = !refused_mine.is_empty();
+                // ---- a retransmission of an answered request is absorbed by its server transaction ----
+                // While the server transaction of an answered request lives (non-INVITE over an unreliable transport:
+                // 64*T1 from the final response; rejected INVITE: until the ACK) a byte-identical copy of the request
+                // does not start a new server transaction: it is not handed to the layers / usages a second time (and
+                // so cannot be claimed and answered a second time). A refused RE-send of the answer does not change
+                // that for a non-INVITE request; for a rejected INVITE ezk ends the transaction there (not asserted).
+                if !case.reliable && first_out {
+                    let alive_until = if s.method != "INVITE" {
+                        Some(answer_due + ref_tsx::TIMEOUT)
+                    } else if code >= 300 {
+                        Some(s.ack_at.unwrap_or(u64::MAX).min(answer_due + ref_tsx::TIMEOUT))
+                    } else {
+                        None
+                    };
+                    if let Some(until) = alive_until {
+                        let copies_in: Vec<u64> = obs.sent.iter().filter(|c| c.is_copy && c.marker == s.marker && c.t_ms > answer_due && c.t_ms < until).map(|c| c.t_ms).collect();
+                        let mut again: Vec<u64> = obs.seen.iter().filter(|x| x.marker.as_deref() == Some(s.marker.as_str()) && x.t_ms > answer_due && x.t_ms < until).map(|x| x.t_ms).collect();
+                        again.dedup();
+                        if copies_in.len() >= 2 {
+                            nontrivial = true;
+                            out.class(if disturbed { "answered request retransmitted >= 2 times, a re-send of its answer refused" } else { "answered request retransmitted >= 2 times" });
+                        }
+                        if !again.is_empty() {
+                            if s.method == "INVITE" && disturbed {
+                                out.class("rejected INVITE: refused re-send ended the transaction, next copy is a new request (not asserted)");
+                            } else {
+                                out.fail(
+                                    format!("c08.retransmission/{}-handed-to-the-layers-again{}", if s.method == "INVITE" { "invite" } else { "non-invite" }, if disturbed { "-after-a-refused-re-send" } else { "" }),
+                                    format!("{} {} ({:?}) answered {code} at {answer_due} ms; copies of it arrived at {copies_in:?} (refused re-sends at {refused_mine:?}): the layers / usages were handed the request again at {again:?} although its server transaction still had to absorb retransmissions", s.marker, s.method, s.kind),
+                                );
+                            }
+                        }
+                    }
+                }
                 if finals.is_empty() {
                     out.fail(format!("c08.answer/none-{who}-{}", if s.method == "INVITE" { "invite" } else { "non-invite" }), format!("{} {} ({:?}) got no final response, expected {code}", s.marker, s.method, s.kind));
                     continue;
@@ -711,7 +818,8 @@ pub fn check(case: &Case, out: &mut CaseOut) {
                         want.push(c.t_ms);
                     }
                     want.sort();
-                    let ties = want.windows(2).any(|w| w[0] == w[1])
+                    let ties = disturbed
+                        || want.windows(2).any(|w| w[0] == w[1])
                         || s.ack_at.map_or(false, |a| want.contains(&a) || a <= answer_due)
                         || obs.sent.iter().any(|c| c.is_copy && c.marker == s.marker && (c.t_ms <= answer_due || c.t_ms >= stop));
                     let got_t: Vec<u64> = finals.iter().map(|(w, _)| w.t_ms).filter(|t| *t < end_t).collect();
@@ -736,7 +844,7 @@ pub fn check(case: &Case, out: &mut CaseOut) {
                     }
                 }
                 // non-INVITE / reliable: exactly the first copy plus one per retransmitted request
-                if (s.method != "INVITE" || case.reliable) && copies_before_end == 0 && finals.len() != 1 {
+                if (s.method != "INVITE" || case.reliable) && copies_before_end == 0 && !disturbed && finals.len() != 1 {
                     out.fail("c08.answer/sent-more-than-once", format!("{} final response sent {} times", s.marker, finals.len()));
                 }
             }
@@ -798,9 +906,37 @@ pub fn reordered_cases(_tier: Tier) -> Vec<Case> {
                     dialog_layer_pos: Some(1),
                     usages: vec![],
                     invite_layer: true,
-                    requests: order.iter().map(|o| Req { gap: 1, kind: Kind::InDialog, method, ack_after: None, cseq_offset: Some(*o), legacy_branch: false, via_hops: 0, via_csv: false, ack_copies: vec![] }).collect(),
+                    requests: order.iter().map(|o| Req { gap: 1, kind: Kind::InDialog, method, ack_after: None, cseq_offset: Some(*o), legacy_branch: false, via_hops: 0, via_csv: false, ack_copies: vec![], copies: vec![] }).collect(),
                     rng: n,
                     uas_tags: false,
+                    fail_sends: vec![],
+                });
+            }
+        }
+    }
+    // MANY requests waiting behind a gap in the peer's CSeq sequence at once (the expected one is delayed): up to 200,
+    // in descending order / ascending behind the gap / upper half ascending then lower half descending / even
+    // numbers descending then odd ones ascending; the delayed request arrives last. Both reliabilities.
+    for &n in &[8u8, 33, 63, 64, 65, 66, 67, 80, 130, 200] {
+        let all: Vec<u8> = (1..=n).collect();
+        let orders: Vec<Vec<u8>> = vec![
+            all.iter().rev().copied().collect(),
+            all[1..].iter().copied().chain([1]).collect(),
+            all[(n as usize / 2)..].iter().copied().chain(all[1..(n as usize / 2)].iter().rev().copied()).chain([1]).collect(),
+            all.iter().rev().copied().filter(|x| x % 2 == 0).chain(all.iter().copied().filter(|x| x % 2 == 1 && *x > 1)).chain([1]).collect(),
+        ];
+        for (oi, order) in orders.into_iter().enumerate() {
+            for reliable in [false, true] {
+                out.push(Case {
+                    reliable,
+                    layers: vec![Spec { table: vec![Policy::Inspect; METHODS.len()] }],
+                    dialog_layer_pos: Some(1),
+                    usages: vec![],
+                    invite_layer: true,
+                    requests: order.iter().map(|o| Req { gap: 1, kind: Kind::InDialog, method: if oi % 2 == 0 { 1 } else { 5 }, ack_after: None, cseq_offset: Some(*o), legacy_branch: false, via_hops: 0, via_csv: false, ack_copies: vec![], copies: vec![] }).collect(),
+                    rng: n.wrapping_add(oi as u8),
+                    uas_tags: false,
+                    fail_sends: vec![],
                 });
             }
         }
@@ -829,6 +965,17 @@ pub fn check_reordered(case: &Case, out: &mut CaseOut) {
     if order.windows(2).any(|w| w[0] > w[1]) {
         out.class("arrival-out-of-cseq-order");
         out.nontrivial(case);
+    }
+    // number of requests that wait behind the gap at the same time (the lowest CSeq arrives last in these orders)
+    let lowest = order.iter().copied().min().unwrap_or(0);
+    let waiting = order.iter().position(|c| *c == lowest).unwrap_or(0);
+    if waiting > 64 {
+        out.class("more than 64 requests wait behind a CSeq gap");
+    } else if waiting > 8 {
+        out.class("9..64 requests wait behind a CSeq gap");
+    }
+    if case.reliable {
+        out.class("reliable");
     }
 }
 
@@ -897,6 +1044,17 @@ pub fn pending_cases(_tier: Tier) -> Vec<super::c12::Case> {
             }
         }
     }
+    // the peer is an RFC 2543 client (no magic cookie in its Via branches: the CANCEL finds the INVITE by the
+    // RFC 2543 rules) and / or the INVITE carries session-timer headers
+    for (i, net) in patterns.iter().enumerate() {
+        if [0usize, 1, 2, 3, 4, 5, 7, 9, 12].contains(&i) {
+            for (legacy_branch, invite_ext) in [(true, 0u8), (false, 3), (true, 4)] {
+                for app in [vec![], vec![(1u64, AppOp::Prov180)]] {
+                    out.push(C { app, net: net.clone(), net_first: i % 2 == 1, rng: 150 + i as u8, legacy_branch, invite_ext, ..Default::default() });
+                }
+            }
+        }
+    }
     // PRACK for a reliable provisional response: the INVITE usage claims and answers the one the acceptor waits
     // for; a PRACK that arrives when nobody waits any more (the acceptor gave up 31*T1 after the 183, or the
     // application abandoned the call after 700 / 3000 ms), one with another RAck, and a second copy with a new
@@ -938,19 +1096,20 @@ pub fn check_pending(case: &super::c12::Case, out: &mut CaseOut) {
     let last = case.net.iter().map(|n| n.0).max().unwrap_or(0);
     let obs = super::c12::run(case, last + 80_000);
     // every request the peer sent, by top-Via branch
-    let mut branches: Vec<(String, String, u64)> = vec![("z9hG4bKc12invite".into(), "INVITE".into(), 0)];
+    let ib = super::c12::inv_branch(case);
+    let mut branches: Vec<(String, String, u64)> = vec![(ib.clone(), "INVITE".into(), 0)];
     let mut n = 0;
     for (t, op) in &case.net {
         n += 1;
         match op {
             NetOp::Cancel { branch_ok, .. } => {
-                let b = if *branch_ok { "z9hG4bKc12invite".to_string() } else { "z9hG4bKc12invitex".to_string() };
+                let b = if *branch_ok { ib.clone() } else { format!("{ib}x") };
                 if !branches.iter().any(|(bb, m, _)| *bb == b && m == "CANCEL") {
                     branches.push((b, "CANCEL".into(), *t));
                 }
             }
-            NetOp::Bye => branches.push((format!("z9hG4bKc12bye{n}"), "BYE".into(), *t)),
-            NetOp::Prack { .. } => branches.push((format!("z9hG4bKc12prack{n}"), "PRACK".into(), *t)),
+            NetOp::Bye => branches.push((super::c12::br(case, &format!("bye{n}")), "BYE".into(), *t)),
+            NetOp::Prack { .. } => branches.push((super::c12::br(case, &format!("prack{n}")), "PRACK".into(), *t)),
             _ => {}
         }
     }
@@ -1068,6 +1227,12 @@ pub fn check_pending(case: &super::c12::Case, out: &mut CaseOut) {
     if case.via_hops > 0 {
         out.class("requests came through proxies (several Via)");
     }
+    if case.legacy_branch {
+        out.class("RFC 2543 peer (Via branches without the magic cookie)");
+    }
+    if case.invite_ext != 0 {
+        out.class("INVITE with session-timer headers");
+    }
     out.nontrivial(case);
 }
 
@@ -1172,7 +1337,7 @@ pub fn property() -> Property {
     Property {
         fuzz: vec![],
         id: "C08",
-        rule: "stack: a case = layer stack (1..4 policy layers, each Ignore / Inspect / Answer(code, delay) / TakeDrop per method; optionally DialogLayer at any position with 0..2 policy usages; optionally InviteLayer) x 1..4 requests (out-of-dialog, in-dialog for the existing / an unknown dialog, ACK, stray response, byte-identical retransmission; methods INVITE/OPTIONS/BYE/MESSAGE/CANCEL/unknown; each with 1..3 Via values = came directly / through 1..2 proxies, as separate lines or one comma list) arriving 0..2100 ms apart, ACK for rejected INVITEs at 250/700/1800 ms or never, half of them followed by further copies of that ACK 1 / 3+1300 / 400 / 3000 ms later; both reliabilities. Oracle: first taking layer in registration order decides the code, else 404 (in-dialog, no usage wants it) / 481 by the stack; wire grouped by (request branch anywhere in the response's Via list, CSeq): the response's top Via must carry the request's top branch and the Via values below it must be the request's in order; a rejection is re-sent on the timer-G schedule until the ACK and not again when a copy of the ACK arrives. Non-trivial = a layer inspects without taking before another layer/the stack answers, or an in-dialog request falls through all usages, or >=2 requests overlap; distinct by case. pending_invite (enumerated, acceptor world of C12): CANCEL / BYE / copies hitting an unanswered INVITE x {no 1xx, 180 sent} x both same-instant orders, x {transport refuses the k-th send, k=0..3} and x {every send stays pending 2 ms}; reliable 183 (waiting / abandoned by the application after 700, 3000 ms) x PRACK {while waiting, around and after the give-up instant 31*T1, wrong RAck, second copy, followed by CANCEL / BYE}; CANCEL / BYE followed by the ACK of the 487 once, twice (1 ms / 1.3 s / 3.7 s / 8.7 s apart) or three times, also over a reliable transport; a selection of all these with 1 / 2 further Via values on the INVITE and the in-dialog requests; wire grouped by (branch anywhere in the Via list, method): top Via / Via list as in `stack`,: one final response per request, the 487 re-sent on the timer-G schedule until its ACK (until 64*T1 when nobody ACKs) and never after the ACK. reordered_in_dialog, session_backlog: enumerated, see the sub-check comments.",
+        rule: "stack: a case = layer stack (1..4 policy layers, each Ignore / Inspect / Answer(code, delay) / TakeDrop per method; optionally DialogLayer at any position with 0..2 policy usages; optionally InviteLayer) x 1..4 requests (out-of-dialog, in-dialog for the existing / an unknown dialog, ACK, stray response, byte-identical retransmission; methods INVITE/OPTIONS/BYE/MESSAGE/CANCEL/unknown; each with 1..3 Via values = came directly / through 1..2 proxies, as separate lines or one comma list) arriving 0..2100 ms apart, ACK for rejected INVITEs at 250/700/1800 ms or never, half of them followed by further copies of that ACK 1 / 3+1300 / 400 / 3000 ms later; both reliabilities; each request optionally retransmitted by the peer (copies at +500 / +500,+1500 / +500,+1500,+3500 / +2,+900 ms, unreliable only) and, in a third of the cases, one of the first eight sends refused by the transport (io::Error). Oracle: first taking layer in registration order decides the code, else 404 (in-dialog, no usage wants it) / 481 by the stack; wire grouped by (request branch anywhere in the response's Via list, CSeq): the response's top Via must carry the request's top branch and the Via values below it must be the request's in order; a rejection is re-sent on the timer-G schedule until the ACK and not again when a copy of the ACK arrives. A request whose first answer transmission was refused is excused; while the server transaction of an answered request lives (non-INVITE: 64*T1; rejected INVITE: until the ACK) a copy of it is not handed to the layers / usages again, also after a refused re-send of the answer (non-INVITE). Non-trivial = an answered request is retransmitted at least twice inside its transaction's life, or a layer inspects without taking before another layer/the stack answers, or an in-dialog request falls through all usages, or >=2 requests overlap; distinct by case. pending_invite (enumerated, acceptor world of C12): CANCEL / BYE / copies hitting an unanswered INVITE x {no 1xx, 180 sent} x both same-instant orders, x {transport refuses the k-th send, k=0..3} and x {every send stays pending 2 ms}; reliable 183 (waiting / abandoned by the application after 700, 3000 ms) x PRACK {while waiting, around and after the give-up instant 31*T1, wrong RAck, second copy, followed by CANCEL / BYE}; CANCEL / BYE followed by the ACK of the 487 once, twice (1 ms / 1.3 s / 3.7 s / 8.7 s apart) or three times, also over a reliable transport; a selection of all these with 1 / 2 further Via values on the INVITE and the in-dialog requests; a selection with an RFC 2543 peer (no magic cookie in any Via branch: the CANCEL finds the INVITE by the RFC 2543 rules) and with session-timer headers on the INVITE (Supported: timer, Min-SE beyond 32 bit / with a generic-param); wire grouped by (branch anywhere in the Via list, method): top Via / Via list as in `stack`,: one final response per request, the 487 re-sent on the timer-G schedule until its ACK (until 64*T1 when nobody ACKs) and never after the ACK. reordered_in_dialog (enumerated): in-dialog OPTIONS / unknown-method requests no usage wants, CSeq n+1..n+k arriving in every order for k=2..4, and for k in {8,33,63,64,65,66,67,80,130,200} in four orders that leave k-1 requests waiting behind the gap at once (descending; ascending with the first one last; upper half ascending + lower half descending; evens descending + odds ascending), both reliabilities: exactly one 404 each. session_backlog: enumerated, see the sub-check comment.",
         assumptions: vec![
             "take-and-drop layers are excluded from the exactly-one count (the application chose not to answer) but must not cause an answer",
             "in-dialog requests carry increasing CSeq numbers in arrival order (re-ordering is C10's subject)",
@@ -1180,6 +1345,8 @@ pub fn property() -> Property {
             "a copy of an INVITE that arrives after the ACK of its rejection is a don't-care (ezk keeps no Confirmed state, the copy is a new request and answered again); copies of the ACK are in the domain: they are never answered",
             "responses are compared with the request's Via list by (sent-by, branch) per value; parameters the server may add to the top Via (received, rport) are not looked at",
             "a request whose own final response the transport refused (io::Error from Transport::send) is excused from the exactly-one count: the stack decided and tried; every other request of the history is still owed its answer",
+            "in `stack` a request is excused only when the FIRST transmission of its answer was refused (then its responding call failed and a later copy is a new request); a refused re-send of an answer that went out leaves the non-INVITE server transaction in place (ezk: logged, loop continues). For a rejected INVITE ezk's respond_failure ends the transaction on a refused re-send (RFC 3261 fig. 7 allows Terminated on a transport error); a copy of the INVITE arriving afterwards is dispatched anew: labelled, not asserted",
+            "a copy of an answered INVITE that was accepted (2xx by a layer) is not judged: the INVITE server transaction ends with the 2xx, retransmitting it is the layer's business (C12)",
             "which of 200 (usage) / 404 / 481 (stack) a PRACK gets that arrives when the acceptor no longer waits is not asserted, only that it gets exactly one of them",
         ],
         explanation: "sampled stacks and request mixes",
